@@ -43,6 +43,7 @@ use rusqlite::{Connection, OpenFlags};
 use serde_json::{json, Map, Value};
 
 use teos_common::appointment::Locator;
+use teos_common::cryptography;
 use teos_common::receipts::{AppointmentReceipt, RegistrationReceipt};
 use teos_common::{TowerId, UserId};
 
@@ -126,8 +127,10 @@ fn revocation_of(scn: &str, l: &str) -> (Txid, Transaction) {
 struct TraceInner {
     file: File,
     n: u64,
-    /// the last observation written (observations that repeat it are not written again)
+    /// the last observation written (one that repeats it is written as a short "same" event, and only if something
+    /// else was logged in between)
     last_obs: Option<String>,
+    dirty: bool,
 }
 
 struct Trace {
@@ -135,8 +138,26 @@ struct Trace {
     t0: Instant,
 }
 
+/// TLC's Json module has no null: every null becomes the string "none"
+fn no_nulls(v: &mut Value) {
+    match v {
+        Value::Null => *v = json!("none"),
+        Value::Array(a) => a.iter_mut().for_each(no_nulls),
+        Value::Object(o) => o.values_mut().for_each(no_nulls),
+        _ => {}
+    }
+}
+
 fn write_event(g: &mut TraceInner, t0: &Instant, mut ev: Value) -> u64 {
+    no_nulls(&mut ev);
+    // every event carries the fields the validator may look at
+    for (k, d) in [("t", json!("-")), ("l", json!("-")), ("id", json!(0)), ("m", json!("-")), ("res", json!("-"))] {
+        if ev.get(k).is_none() {
+            ev[k] = d;
+        }
+    }
     g.n += 1;
+    g.dirty = true;
     let i = g.n;
     let o = ev.as_object_mut().unwrap();
     o.insert("i".into(), json!(i));
@@ -153,7 +174,7 @@ fn write_event(g: &mut TraceInner, t0: &Instant, mut ev: Value) -> u64 {
 impl Trace {
     fn new(path: &Path) -> Self {
         Trace {
-            out: Mutex::new(TraceInner { file: File::create(path).expect("trace file"), n: 0, last_obs: None }),
+            out: Mutex::new(TraceInner { file: File::create(path).expect("trace file"), n: 0, last_obs: None, dirty: false }),
             t0: Instant::now(),
         }
     }
@@ -193,6 +214,8 @@ struct TowerState {
     nreq: u64,
     held: u64,
     release: u64,
+    /// answer to give to the held request number .. (set by the release step)
+    override_beh: HashMap<u64, Beh>,
     inflight: u64,
     /// kill the client when the next request (after `skip` more) arrives / has been answered
     kill_on: Option<(String, u64, u64)>, // (when, skip, delay_us)
@@ -319,6 +342,70 @@ fn classes_of(ep: &str, beh: &Beh) -> Vec<String> {
     vec![c.to_owned()]
 }
 
+fn as_u32(v: Option<&Value>) -> Option<u32> {
+    let v = v?;
+    if v.is_f64() {
+        return None;
+    }
+    v.as_u64().and_then(|x| u32::try_from(x).ok())
+}
+
+fn is_hex(v: Option<&Value>) -> bool {
+    v.and_then(|x| x.as_str()).map(|s| hex::decode(s).is_ok()).unwrap_or(false)
+}
+
+/// What the bytes of an answer ARE for a client that parses them as the protocol says (serde shapes of
+/// teos_common::protos and watchtower_plugin::net::http::ApiError; signatures judged with teos_common's own
+/// verifier): (class, slots, start, expiry).  Classes: accept | sub_error | reject | badsig | malsig | garbage.
+fn classify_answer(ep: &str, bytes: &[u8], user_sig: &str, user_id: Option<UserId>, tower: &TowerId) -> (String, u32, u32, u32) {
+    let garbage = ("garbage".to_owned(), 0, 0, 0);
+    let v: Value = match serde_json::from_slice(bytes) {
+        Ok(v) => v,
+        Err(_) => return garbage,
+    };
+    let o = match v.as_object() {
+        Some(o) => o,
+        None => return garbage,
+    };
+    if ep == "add" {
+        let resp = (
+            is_hex(o.get("locator")),
+            as_u32(o.get("start_block")),
+            o.get("signature").and_then(|x| x.as_str()),
+            as_u32(o.get("available_slots")),
+            as_u32(o.get("subscription_expiry")),
+        );
+        if let (true, Some(sb), Some(sig), Some(slots), Some(_)) = resp {
+            let receipt = AppointmentReceipt::with_signature(user_sig.to_owned(), sb, sig.to_owned());
+            return match cryptography::recover_pk(&receipt.to_vec(), sig) {
+                Ok(pk) if TowerId(pk) == *tower => ("accept".to_owned(), slots, 0, 0),
+                Ok(_) => ("badsig".to_owned(), slots, 0, 0),
+                Err(_) => ("malsig".to_owned(), slots, 0, 0),
+            };
+        }
+        let code = o.get("error_code").filter(|c| !c.is_f64()).and_then(|c| c.as_u64()).filter(|c| *c <= 255);
+        if let (Some(_), Some(code)) = (o.get("error").and_then(|e| e.as_str()), code) {
+            return (if code == 7 { "sub_error" } else { "reject" }.to_owned(), 0, 0, 0);
+        }
+        garbage
+    } else {
+        let resp = (
+            is_hex(o.get("user_id")),
+            as_u32(o.get("available_slots")),
+            as_u32(o.get("subscription_start")),
+            as_u32(o.get("subscription_expiry")),
+            o.get("subscription_signature").and_then(|x| x.as_str()),
+        );
+        if let (true, Some(slots), Some(start), Some(expiry), Some(sig)) = resp {
+            let ok = user_id
+                .map(|uid| RegistrationReceipt::with_signature(uid, slots, start, expiry, sig.to_owned()).verify(tower))
+                .unwrap_or(false);
+            return (if ok { "accept" } else { "badsig" }.to_owned(), slots, start, expiry);
+        }
+        garbage
+    }
+}
+
 const MALFORMED_SIGS: [&str; 6] = [
     "",
     "!!!! not zbase32 !!!!",
@@ -385,11 +472,9 @@ impl Tower {
             (beh, sh.seq.fetch_add(1, Ordering::SeqCst) + 1, kill)
         };
         let cls = classes_of(ep, &beh);
-        let mut ev = json!({"ev":"req","seq":seq,"t":self.name,"ep":ep,"beh":beh.0,"cls":cls});
-        if ep == "add" {
-            ev["l"] = json!(lname);
-        }
-        sh.trace.emit(ev);
+        let k = beh.kind();
+        let lfield = if ep == "add" { lname.clone() } else { "-".to_owned() };
+        sh.trace.emit(json!({"ev":"req","seq":seq,"t":self.name,"ep":ep,"l":lfield,"beh":beh.0,"cls":cls}));
         if let Some((w, _)) = &kill {
             if w == "arrival" {
                 do_kill(sh, "on request arrival");
@@ -397,7 +482,7 @@ impl Tower {
         }
         // the state the client is in while it waits for this answer
         emit_obs(sh, "req");
-        if jbool(&beh.0, "hold", false) {
+        let (beh, cls, k) = if jbool(&beh.0, "hold", false) {
             let mut st = self.st.lock().unwrap();
             st.held += 1;
             let my = st.held;
@@ -405,21 +490,45 @@ impl Tower {
             while st.release < my && !st.stop {
                 st = self.cv.wait_timeout(st, Duration::from_millis(50)).unwrap().0;
             }
-        }
+            // the script may decide the answer when it releases the request
+            match st.override_beh.remove(&my) {
+                Some(b) => {
+                    let c = classes_of(ep, &b);
+                    let k = b.kind();
+                    (b, c, k)
+                }
+                None => (beh, cls, k),
+            }
+        } else {
+            (beh, cls, k)
+        };
         let d = ju64(&beh.0, "delay_ms", 0);
         if d > 0 {
             thread::sleep(Duration::from_millis(d));
         }
         // build the answer
-        let k = beh.kind();
         let status = ju64(&beh.0, "status", 0) as u16;
-        let mut rep_ev = json!({"ev":"rep","seq":seq,"t":self.name,"ep":ep});
+        let mut rep_ev = json!({"ev":"rep","seq":seq,"t":self.name,"ep":ep,"l":lfield,"cls":cls,"k":k,
+                                "slots":0,"start":0,"expiry":0,"sigok":true});
         let (code, ctype, bytes): (u16, String, Vec<u8>) = if ep == "reg" {
             self.answer_register(&beh, &jb, &mut rep_ev)
         } else {
             self.answer_add(&beh, &jb, &user_sig, &mut rep_ev)
         };
         let code = if status != 0 { status } else { code };
+        // the class of the answer is read off the bytes that are sent (unless the script insists)
+        if beh.0.get("cls").is_none() {
+            let uid = *sh.user_id.lock().unwrap();
+            let (c, slots, start, expiry) = if k == "reset" {
+                ("garbage".to_owned(), 0, 0, 0)
+            } else {
+                classify_answer(ep, &bytes, &user_sig, uid, &self.id)
+            };
+            rep_ev["cls"] = json!([c]);
+            rep_ev["slots"] = json!(slots);
+            rep_ev["start"] = json!(start);
+            rep_ev["expiry"] = json!(expiry);
+        }
         if k == "reset" {
             // the connection is closed without an answer
             sh.trace.emit(rep_ev);
@@ -483,7 +592,10 @@ impl Tower {
                 let mut body = json!({"user_id": uid_hex, "available_slots": slots, "subscription_start": start,
                                       "subscription_expiry": expiry, "subscription_signature": sig});
                 apply_mutation(&mut body, beh);
-                rep_ev["reg"] = json!({"slots":slots,"start":start,"expiry":expiry,"sigok":sigok});
+                rep_ev["slots"] = json!(slots);
+                rep_ev["start"] = json!(start);
+                rep_ev["expiry"] = json!(expiry);
+                rep_ev["sigok"] = json!(sigok);
                 (200, "application/json".into(), serde_json::to_vec(&body).unwrap())
             }
             _ => garbage_answer(beh),
@@ -802,11 +914,14 @@ impl Client {
     }
 }
 
+/// SIGKILL.  The trace is locked meanwhile: no observation is in progress while the process dies, and everything
+/// that notices the death is logged after the "kill" line.
 fn do_kill(sh: &Arc<Shared>, why: &str) {
+    let mut g = sh.trace.out.lock().unwrap();
     let c = sh.client.lock().unwrap().take();
     if let Some(c) = c {
         c.kill();
-        sh.trace.emit(json!({"ev":"kill","why":why}));
+        write_event(&mut g, &sh.trace.t0, json!({"ev":"kill","why":why}));
     }
 }
 
@@ -914,7 +1029,7 @@ fn read_db(sh: &Shared, path: &Path) -> Result<Value, String> {
 /// SIGKILL a hot journal may be left behind, which only a writer can roll back): a private copy is opened instead.
 fn db_snapshot(sh: &Shared, alive: bool) -> Value {
     if !sh.db_path.exists() {
-        return Value::Null;
+        return json!({"towers":[],"regs":[],"rcpts":[],"pend":[],"inv":[],"bodies":[],"proofs":[]});
     }
     if alive {
         for _ in 0..3 {
@@ -939,7 +1054,10 @@ fn db_snapshot(sh: &Shared, alive: bool) -> Value {
     if let Ok(c) = Connection::open(&copy) {
         let _ = c.query_row("SELECT COUNT(*) FROM sqlite_master", [], |r| r.get::<_, i64>(0));
     }
-    read_db(sh, &copy).unwrap_or_else(|e| json!({"error": e}))
+    read_db(sh, &copy).unwrap_or_else(|e| {
+        sh.inconclusive.lock().unwrap().push(format!("database cannot be read: {e}"));
+        json!({"towers":[],"regs":[],"rcpts":[],"pend":[],"inv":[],"bodies":[],"proofs":[]})
+    })
 }
 
 fn mem_snapshot(sh: &Shared, timeout: Duration) -> Value {
@@ -994,7 +1112,8 @@ fn emit_obs(sh: &Shared, why: &str) {
         if mem.is_null() && !client.as_ref().unwrap().is_dead() {
             // no answer: once more, patiently; then either a reported panic explains it (poisoned state mutex) or the
             // machine is too slow for this scenario to mean anything
-            mem = mem_snapshot(sh, Duration::from_millis(4000));
+            let panicked = !client.as_ref().unwrap().panics.lock().unwrap().is_empty();
+            mem = mem_snapshot(sh, Duration::from_millis(if panicked { 1000 } else { 4000 }));
             if mem.is_null() && !client.as_ref().unwrap().is_dead() {
                 if client.as_ref().unwrap().panics.lock().unwrap().is_empty() {
                     sh.inconclusive.lock().unwrap().push("listtowers not answered within 4 s and no panic reported".into());
@@ -1006,10 +1125,18 @@ fn emit_obs(sh: &Shared, why: &str) {
     }
     let key = format!("{db}|{mem}");
     if !why.ends_with('!') && g.last_obs.as_deref() == Some(key.as_str()) {
+        if g.dirty {
+            write_event(&mut g, &sh.trace.t0, json!({"ev":"same","why":why}));
+            g.dirty = false;
+        }
         return;
     }
     g.last_obs = Some(key);
-    write_event(&mut g, &sh.trace.t0, json!({"ev":"obs","why":why.trim_end_matches('!'),"db":db,"mem":mem}));
+    // memok = listtowers answered
+    let memok = !mem.is_null();
+    let mem = if memok { mem } else { json!([]) };
+    write_event(&mut g, &sh.trace.t0, json!({"ev":"obs","why":why.trim_end_matches('!'),"db":db,"mem":mem,"memok":memok}));
+    g.dirty = false;
 }
 
 // ---------------------------------------------------------------------------------------------------------------------
@@ -1163,13 +1290,17 @@ impl Exec {
             }
             "mode" => {
                 let tw = sh.tower(jstr(step, "t"));
-                tw.st.lock().unwrap().mode.insert(jstr(step, "ep").to_owned(), Beh(step["beh"].clone()));
+                let b = Beh(step["beh"].clone());
+                sh.trace.emit(json!({"ev":"mode","t":tw.name,"ep":jstr(step, "ep"),"cls":classes_of(jstr(step, "ep"), &b),"queued":0}));
+                tw.st.lock().unwrap().mode.insert(jstr(step, "ep").to_owned(), b);
             }
             "queue" => {
                 let tw = sh.tower(jstr(step, "t"));
+                let behs = step["behs"].as_array().cloned().unwrap_or_default();
+                sh.trace.emit(json!({"ev":"mode","t":tw.name,"ep":jstr(step, "ep"),"cls":["queue"],"queued":behs.len()}));
                 let mut st = tw.st.lock().unwrap();
                 let q = st.queue.entry(jstr(step, "ep").to_owned()).or_default();
-                for b in step["behs"].as_array().cloned().unwrap_or_default() {
+                for b in behs {
                     q.push_back(Beh(b));
                 }
             }
@@ -1238,7 +1369,14 @@ impl Exec {
             "release" => {
                 let tw = sh.tower(jstr(step, "t"));
                 let mut st = tw.st.lock().unwrap();
-                st.release = if step.get("n").is_some() { st.release + ju64(step, "n", 1) } else { st.held };
+                if let Some(b) = step.get("beh") {
+                    // the oldest held request is answered with this behaviour
+                    let next = st.release + 1;
+                    st.override_beh.insert(next, Beh(b.clone()));
+                    st.release = next;
+                } else {
+                    st.release = if step.get("n").is_some() { st.release + ju64(step, "n", 1) } else { st.held };
+                }
                 tw.cv.notify_all();
             }
             "wait_held" => {
@@ -1407,6 +1545,7 @@ fn run_scenario(scn: &Value, out_dir: &Path, bin: &Path, port0: u16) -> Value {
                 nreq: 0,
                 held: 0,
                 release: 0,
+                override_beh: HashMap::new(),
                 inflight: 0,
                 kill_on: None,
                 stop: false,
@@ -1427,6 +1566,7 @@ fn run_scenario(scn: &Value, out_dir: &Path, bin: &Path, port0: u16) -> Value {
         inconclusive: Mutex::new(Vec::new()),
         done: AtomicBool::new(false),
     });
+    sh.trace.emit(json!({"ev":"start","name":name,"scenario":scn}));
     let mut threads = Vec::new();
     for tw in &sh.towers {
         let (tw, sh2) = (tw.clone(), sh.clone());
@@ -1512,7 +1652,7 @@ fn run_scenario(scn: &Value, out_dir: &Path, bin: &Path, port0: u16) -> Value {
         let _ = t.join();
     }
     let inconclusive = sh.inconclusive.lock().unwrap().clone();
-    sh.trace.emit(json!({"ev":"end","inconclusive":inconclusive,"error":error}));
+    sh.trace.emit(json!({"ev":"end","inconclusive":inconclusive,"error":error.clone().unwrap_or_default()}));
     json!({"name": name, "events": sh.trace.events(), "wall_ms": t0.elapsed().as_millis() as u64,
            "error": error, "inconclusive": inconclusive})
 }
@@ -1534,7 +1674,10 @@ impl Drop for PortBlock {
 
 const PORTS_PER_BLOCK: u16 = 8;
 
+static CLAIM: Mutex<()> = Mutex::new(());
+
 fn claim_block(dir: &Path) -> PortBlock {
+    let _g = CLAIM.lock().unwrap();
     fs::create_dir_all(dir).ok();
     let start = (std::process::id() as u16 % 1200) * PORTS_PER_BLOCK;
     for k in 0..1500u32 {
@@ -1542,7 +1685,14 @@ fn claim_block(dir: &Path) -> PortBlock {
         let lock = dir.join(format!("{base}.lock"));
         if let Ok(s) = fs::read_to_string(&lock) {
             let pid: u32 = s.trim().parse().unwrap_or(0);
-            if pid != 0 && Path::new(&format!("/proc/{pid}")).exists() {
+            let fresh = fs::metadata(&lock)
+                .and_then(|m| m.modified())
+                .ok()
+                .and_then(|m| m.elapsed().ok())
+                .map(|e| e < Duration::from_secs(20))
+                .unwrap_or(true);
+            // held by a live process, or just being written by somebody
+            if (pid != 0 && Path::new(&format!("/proc/{pid}")).exists()) || (pid == 0 && fresh) {
                 continue;
             }
             let _ = fs::remove_file(&lock);
